@@ -324,8 +324,10 @@ func stripOptional(g *genReq) {
 		p, _ := b.(M)["props"].(M)
 		delete(p, "ordering")
 		delete(p, "referenceCriterionType")
+		delete(p, "ReferenceCriterionType")
 		if ap := subM(subM(p, "applier"), "params"); ap != nil {
 			delete(ap, "referenceCriterionType")
+			delete(ap, "ReferenceCriterionType")
 		}
 	}
 }
